@@ -31,10 +31,15 @@ use net2::UdpBuilder;
 use once_cell::sync::Lazy;
 use simple_logger::SimpleLogger;
 use std::ops::Deref;
+#[cfg(not(roughenough_verif))]
 use std::process;
 use std::sync::atomic::{AtomicBool, Ordering};
+#[cfg(not(roughenough_verif))]
 use std::sync::{Arc, Mutex};
+#[cfg(not(roughenough_verif))]
 use std::{env, io, thread};
+#[cfg(roughenough_verif)]
+use verif_std::{env, io, process, sync::{Arc, Mutex}, thread};
 
 use roughenough::config;
 use roughenough::config::ServerConfig;
